@@ -411,6 +411,8 @@ fn call_mesh(rec: &mut Rec, op: &str, u: &[usize]) -> bool {
     match op {
         "mesh1.set_nodes_vars" => { let mut m = a_mesh1(u[0], u[1]); tgt!(rec, "method", m, m.set_nodes_vars(u[2], vecf(u[3], 70))); }
         "mesh1.get_nodes_vars" => { let m = a_mesh1(u[0], u[1]); bref!(rec, "method", [m], m.get_nodes_vars(u[2])); }
+        "mesh1.index_get" => { let m = a_mesh1(u[0], u[1]); bref!(rec, "method", [m], V::create(m[u[2]].vec.clone())); }
+        "mesh1.index_set" => { let mut m = a_mesh1(u[0], u[1]); tgt!(rec, "method", m, if u[1] >= 1 { m[u[2]][0] = 99.0 } else { m[u[2]] = V::empty() }); }
         "mesh2.set_nodes_vars" => { let mut m = mesh2(u[0], u[1], u[2]); tgt!(rec, "method", m, m.set_nodes_vars(u[3], u[4], vecf(u[5], 70))); }
         "mesh2.get_nodes_vars" => { let m = mesh2(u[0], u[1], 2); bref!(rec, "method", [m], m.get_nodes_vars(u[2], u[3])); }
         "mesh2.cross_section_xnode" => { let m = mesh2(u[0], u[1], 2); bref!(rec, "method", [m], m.cross_section_xnode(u[2])); }
